@@ -44,20 +44,26 @@ var barAscii = [...]rune{
 
 const barUnicodePartCount = len(barUnicode)
 
-// write a length of runes for a given bar parameters
-func barWriteRunes(w io.StringWriter, blockChar rune, val, maxVal, maxLen int64) {
+// write a length of runes for a given bar parameters, never more than room; returns how many were written
+func barWriteRunes(w io.StringWriter, blockChar rune, val, maxVal, maxLen, room int64) int64 {
 	if maxVal <= 0 {
-		return
+		return 0
 	}
 	if val > maxVal {
 		val = maxVal
 	}
 
 	blocks := val * maxLen / maxVal
-	for blocks > 0 {
-		w.WriteString(string(blockChar))
-		blocks--
+	if blocks > room {
+		blocks = room
 	}
+	if blocks < 0 {
+		blocks = 0
+	}
+	for i := int64(0); i < blocks; i++ {
+		w.WriteString(string(blockChar))
+	}
+	return blocks
 }
 
 // Write a bar, possibly with partial runes. Not to be used with stacking
@@ -105,6 +111,8 @@ func BarKey(idx int) string {
 
 // Write a bar with a series of values, stacked with runes based on the global context
 func BarWriteStacked(w io.StringWriter, maxVal, maxLen int64, vals ...int64) {
+	room := maxLen // segments of mixed sign may add up to more than the total: the bar still ends at maxLen
+
 	if color.Enabled {
 		// Have color, so use it as the 'key'
 
@@ -115,13 +123,13 @@ func BarWriteStacked(w io.StringWriter, maxVal, maxLen int64, vals ...int64) {
 
 		for i := 0; i < len(vals); i++ {
 			color.Write(w, color.GroupColors[i%len(color.GroupColors)], func(w io.StringWriter) {
-				barWriteRunes(w, blockChar, vals[i], maxVal, maxLen)
+				room -= barWriteRunes(w, blockChar, vals[i], maxVal, maxLen, room)
 			})
 		}
 	} else {
 		// No color, so must use ascii char
 		for i := 0; i < len(vals); i++ {
-			barWriteRunes(w, barAscii[i%len(barAscii)], vals[i], maxVal, maxLen)
+			room -= barWriteRunes(w, barAscii[i%len(barAscii)], vals[i], maxVal, maxLen, room)
 		}
 	}
 }
